@@ -262,30 +262,41 @@ Definition qnth (t : Q * Q * Q) (i : nat) : Q :=
 Definition qset (t : Q * Q * Q) (i : nat) (v : Q) : Q * Q * Q :=
   let '(a, b, c) := t in match i with 0%nat => (v, b, c) | 1%nat => (a, v, c) | _ => (a, b, v) end.
 
+Definition tri_edges (tri : Q3 * Q3 * Q3) : Q3 * Q3 * Q3 :=
+  let '(p0, p1, p2) := tri in (q3sub p2 p1, q3sub p0 p2, q3sub p1 p0).
+Definition tri_crossP (tri : Q3 * Q3 * Q3) : Q3 :=
+  q3cross (q3nth (tri_edges tri) 0%nat) (q3nth (tri_edges tri) 1%nat).
+(* crossPv for corner i *)
+Definition bary_crossPv (tri : Q3 * Q3 * Q3) (v : Q3) (i : nat) : Q3 :=
+  q3cross (q3nth (tri_edges tri) i) (q3sub v (q3nth tri (next3 i))).
+Definition edge_d2 (tri : Q3 * Q3 * Q3) (i : nat) : Q :=
+  q3dot (q3nth (tri_edges tri) i) (q3nth (tri_edges tri) i).
+Definition near_vert (tri : Q3 * Q3 * Q3) (v : Q3) (tol2 : Q) (i : nat) : bool :=
+  let dv := q3sub v (q3nth tri i) in Qltb (q3dot dv dv) tol2.
+Definition edge_snapped (tri : Q3 * Q3 * Q3) (v : Q3) (tol2 : Q) (i : nat) : bool :=
+  let c := bary_crossPv tri v i in Qltb (q3dot c c) (edge_d2 tri i * tol2).
+Definition long_side (tri : Q3 * Q3 * Q3) : nat :=
+  let d := edge_d2 tri in
+  if Qltb (d 1%nat) (d 0%nat) && Qltb (d 2%nat) (d 0%nat) then 0%nat
+  else if Qltb (d 2%nat) (d 1%nat) then 1%nat else 2%nat.
+
 Definition get_barycentric (v : Q3) (tri : Q3 * Q3 * Q3) (tolerance : Q) : Q * Q * Q :=
-  let '(p0, p1, p2) := tri in
-  let edges := (q3sub p2 p1, q3sub p0 p2, q3sub p1 p0) in
-  let e := q3nth edges in
-  let d2 := (q3dot (e 0%nat) (e 0%nat), q3dot (e 1%nat) (e 1%nat), q3dot (e 2%nat) (e 2%nat)) in
-  let d := qnth d2 in
-  let longSide := if Qltb (d 1%nat) (d 0%nat) && Qltb (d 2%nat) (d 0%nat) then 0%nat
-                  else if Qltb (d 2%nat) (d 1%nat) then 1%nat else 2%nat in
-  let crossP := q3cross (e 0%nat) (e 1%nat) in
+  let d := edge_d2 tri in
+  let longSide := long_side tri in
+  let crossP := tri_crossP tri in
   let area2 := q3dot crossP crossP in
   let tol2 := tolerance * tolerance in
-  let near i := let dv := q3sub v (q3nth tri i) in Qltb (q3dot dv dv) tol2 in
-  if near 0%nat then (1, 0, 0) else if near 1%nat then (0, 1, 0) else if near 2%nat then (0, 0, 1) else
-  if Qltb (d longSide) tol2 then (1, 0, 0)                        (* point *)
+  if near_vert tri v tol2 0%nat then (1, 0, 0)
+  else if near_vert tri v tol2 1%nat then (0, 1, 0)
+  else if near_vert tri v tol2 2%nat then (0, 0, 1)
+  else if Qltb (d longSide) tol2 then (1, 0, 0)                   (* point *)
   else if Qltb (d longSide * tol2) area2 then                     (* triangle *)
-    let u i := let j := next3 i in
-               let crossPv := q3cross (e i) (q3sub v (q3nth tri j)) in
-               let area2v := q3dot crossPv crossPv in
-               if Qltb area2v (d i * tol2) then 0 else q3dot crossPv crossP in
+    let u i := if edge_snapped tri v tol2 i then 0 else q3dot (bary_crossPv tri v i) crossP in
     let s := u 0%nat + u 1%nat + u 2%nat in
     (u 0%nat / s, u 1%nat / s, u 2%nat / s)
   else                                                            (* line *)
     let nextV := next3 longSide in
-    let alpha := q3dot (q3sub v (q3nth tri nextV)) (e longSide) / d longSide in
+    let alpha := q3dot (q3sub v (q3nth tri nextV)) (q3nth (tri_edges tri) longSide) / d longSide in
     let lastV := next3 nextV in
     qset (qset (qset (0, 0, 0) longSide 0) nextV (1 - alpha)) lastV alpha.
 
